@@ -93,7 +93,8 @@ structure Obj where
   deriving Repr, Inhabited
 
 structure Sys where
-  objs : List Obj
+  /-- an array: `ob i` is read in every loop -/
+  objs : Array Obj
   /-- `system.allobjects.values()` -/
   all : List Nat
   /-- `system.rootobjects` -/
@@ -105,7 +106,7 @@ structure Sys where
   deriving Repr, Inhabited
 
 def Sys.ob (s : Sys) (i : Nat) : Obj := s.objs.getD i default
-def Sys.n (s : Sys) : Nat := s.objs.length
+def Sys.n (s : Sys) : Nat := s.objs.size
 
 /-! ### `fullName`, `isVisible`, `isPrivate` -/
 
